@@ -17,7 +17,7 @@ RULE = ("profiles: N in 2..60 layers; heights on regular linspace/arange grids o
         "recovered from cumulative strengths, representative heights, cost <= equal split), GCTM improvement + calibrated "
         "moment tolerance. Non-trivial = irregular heights or L >= 3. Distinct = canonical JSON.")
 ASSUMPTIONS = ["slab i = [hmin + i*step, hmin + (i+1)*step), last slab closed at hmax; a layer within 1e-9*range of an interior edge is not judged for membership (either side accepted)",
-               "equal split for optimal grouping = boundaries at floor(k N / L)",
+               "equal split for optimal grouping = groups of N/L layers (any grouping with sizes floor/ceil(N/L) when L does not divide N: the result must not be worse than all of them)",
                "GCTM: optimiser-accuracy check (objective not worse than at its starting guess; first 2L-1 scaled moments within 5e-2 relative), labelled as such"]
 
 
@@ -167,6 +167,15 @@ def el_enum_run(ctx):
 @st.composite
 def og_cases(draw, max_n=22):
     pr = draw(profile(allow_zero=False, max_n=max_n))
+    if draw(st.integers(0, 3)) == 0:
+        # a nearly uniform profile on a regular grid with L dividing N: the equal split is unambiguous and close to optimal,
+        # so a search that starts somewhere else and only descends has to get at least that far
+        L = draw(st.integers(2, 5))
+        k = draw(st.integers(2, 5))
+        N = L * k
+        rng = gen.np_rng(draw(st.integers(0, 2**32 - 1)))
+        p_ = rng.integers(1, 3, size=N).astype(float) if draw(st.booleans()) else np.exp(rng.normal(0, 0.3, size=N))
+        pr = {"h": np.arange(N) * 1000.0, "p": p_ * 1e-14, "L": L, "kind": "near_uniform", "w": None}
     pr["R"] = draw(st.integers(0, 3))
     pr["npseed"] = draw(st.integers(0, 2**32 - 1))
     # whole-metre altitude tables stored as unsigned integers (uint16 holds every altitude up to 65 km)
@@ -224,17 +233,25 @@ def og_body(ctx, case):
         best = min(float(np.sum(p[g] * np.abs(h[g] - hr))) for hr in h[g])
         mine = float(np.sum(p[g] * np.abs(h[g] - hl[i])))
         ctx.require(mine <= best * (1 + 1e-9) + 1e-300, "optimal_grouping: representative height of group %d does not minimise the group cost" % i)
-    eq = np.linspace(0, N, L + 1).astype(int)
-    eq_groups = [np.arange(eq[i], eq[i + 1]) for i in range(L) if eq[i + 1] > eq[i]]
-    if len(eq_groups) == L:
-        # the code's own start is the split after index floor(k N / L): groups [0..s0], [s0+1..s1], ...
-        s = eq[1:-1]
-        b2 = [0] + [int(x) + 1 for x in s] + [N]
-        if all(b2[i + 1] > b2[i] for i in range(L)):
-            start_groups = [np.arange(b2[i], b2[i + 1]) for i in range(L)]
-            c_equal = min(group_cost(h, p, eq_groups), group_cost(h, p, start_groups)) if False else group_cost(h, p, start_groups)
-            c_mine = group_cost(h, p, groups)
-            ctx.require(c_mine <= c_equal * (1 + 1e-9) + 1e-300, "optimal_grouping: cost %r worse than the equal split %r" % (c_mine, c_equal))
+    # "no worse than the equal split": the equal split has groups of N/L layers each when L divides N; otherwise every
+    # contiguous grouping whose sizes are floor(N/L) or ceil(N/L) is an equal split, and the result is required to be no worse
+    # than the worst of them (it may not lose against every balanced grouping)
+    import itertools
+    lo_, extra = divmod(N, L)
+    costs = []
+    for big in itertools.combinations(range(L), extra):
+        sizes = [lo_ + (1 if i in big else 0) for i in range(L)]
+        if min(sizes) < 1:
+            continue
+        b2 = np.concatenate([[0], np.cumsum(sizes)])
+        costs.append(group_cost(h, p, [np.arange(b2[i], b2[i + 1]) for i in range(L)]))
+        if len(costs) >= 500:
+            break
+    if costs:
+        c_equal = max(costs)
+        c_mine = group_cost(h, p, groups)
+        ctx.classes["L_divides_N" if extra == 0 else "L_does_not_divide_N"] += 1
+        ctx.require(c_mine <= c_equal * (1 + 1e-9) + 1e-300, "optimal_grouping(R=%d, L=%d, N=%d): cost %r worse than the equal split %r" % (R, L, N, c_mine, c_equal))
 
 
 # ------------------------------------------------------------------ GCTM
